@@ -115,6 +115,7 @@ func (e *emmiter) addListeners(evt EventName, listeners []*eventEntry) error {
 
 	evtEntry, _ := e.evtListeners.LoadOrStore(evt, NewSlice[*eventEntry]())
 	evtEntry.Push(listeners...)
+	verifYield(evt)
 	return nil
 }
 
